@@ -25,6 +25,29 @@ theorem R.sat_ne_oob {α : Type} {r : R α} {P : α → Prop} (h : r.sat P) : r 
 theorem R.sat_ne_hang {α : Type} {r : R α} {P : α → Prop} (h : r.sat P) : r ≠ .hang := by
   obtain ⟨v, rfl, _⟩ := h
   intro h; cases h
+theorem R.sat_ne_abort {α : Type} {r : R α} {P : α → Prop} (h : r.sat P) : r ≠ .abort := by
+  obtain ⟨v, rfl, _⟩ := h
+  intro h; cases h
+
+/-- weak variant: a failed `assert` is tolerated (used where the assertion needs an extra hypothesis
+    on the data, while the memory-safety claim does not) -/
+def R.wsat {α : Type} (r : R α) (P : α → Prop) : Prop := r = .abort ∨ r.sat P
+
+theorem R.sat.wsat {α : Type} {r : R α} {P : α → Prop} (h : r.sat P) : r.wsat P := Or.inr h
+theorem R.wsat_pure {α : Type} {v : α} {P : α → Prop} (h : P v) : (pure v : R α).wsat P := Or.inr ⟨v, rfl, h⟩
+theorem R.wsat_bind {α β : Type} {x : R α} {f : α → R β} {P : α → Prop} {Q : β → Prop}
+    (hx : x.wsat P) (hf : ∀ v, P v → (f v).wsat Q) : (x >>= f).wsat Q := by
+  rcases hx with rfl | ⟨v, rfl, hv⟩
+  · exact Or.inl rfl
+  · exact hf v hv
+theorem R.wsat_ne_oob {α : Type} {r : R α} {P : α → Prop} (h : r.wsat P) : r ≠ .oob := by
+  rcases h with rfl | h
+  · intro h; cases h
+  · exact R.sat_ne_oob h
+theorem R.wsat_ne_hang {α : Type} {r : R α} {P : α → Prop} (h : r.wsat P) : r ≠ .hang := by
+  rcases h with rfl | h
+  · intro h; cases h
+  · exact R.sat_ne_hang h
 
 @[simp] theorem R.ok_bind {α β : Type} (v : α) (f : α → R β) : (R.ok v >>= f) = f v := rfl
 @[simp] theorem R.pure_bind' {α β : Type} (v : α) (f : α → R β) : ((pure v : R α) >>= f) = f v := rfl
@@ -85,6 +108,32 @@ theorem iter_sat {σ β : Type} (step : σ → R (σ ⊕ β)) (I : σ → Prop) 
     | inr b =>
       simp only [iter, hr]
       exact ⟨b, rfl, hp⟩
+
+theorem iter_wsat {σ β : Type} (step : σ → R (σ ⊕ β)) (I : σ → Prop) (μ : σ → Nat) (Q : β → Prop)
+    (h : ∀ s, I s → (step s).wsat (fun r => match r with
+                                    | .inl s' => I s' ∧ μ s' < μ s
+                                    | .inr b => Q b)) :
+    ∀ fuel s, I s → μ s < fuel → (iter step fuel s).wsat Q := by
+  intro fuel
+  induction fuel with
+  | zero => intro s _ hm; omega
+  | succ n ih =>
+    intro s hI hm
+    rcases h s hI with ha | ⟨r, hr, hp⟩
+    · left; simp only [iter, ha]
+    · cases r with
+      | inl s' =>
+        simp only [iter, hr]
+        exact ih s' hp.1 (by have := hp.2; omega)
+      | inr b =>
+        simp only [iter, hr]
+        exact Or.inr ⟨b, rfl, hp⟩
+
+theorem wsat_chk (c : Prop) [Decidable c] : (chk c).wsat (fun _ => c) := by
+  unfold chk
+  split
+  · rename_i hc; exact Or.inr ⟨(), rfl, hc⟩
+  · exact Or.inl rfl
 
 theorem findCh_sat (a : Array Nat) (first last ch : Nat) (hl : last ≤ a.size) :
     ∀ n p, first ≤ p → p + n ≤ last →
@@ -257,11 +306,17 @@ theorem checkFixUtf8_sat (a : Array Nat) (first last : Nat) (h : first ≤ last)
         exact R.sat_pure trivial
     · exact R.sat_pure trivial
 
-theorem compareByCodeUnits_sat (a1 : Array Nat) (first1 last1 : Nat) (a2 : Array Nat) (first2 last2 : Nat)
+/-- close a `(pure v).wsat P` goal -/
+macro "wfin" : tactic =>
+  `(tactic| exact R.wsat_pure (by first | (simp only [true_and] <;> omega) | omega | exact True.intro))
+
+/-- memory safety and termination of compare_by_code_units for arbitrary code units (the `assert` is
+    dealt with in `compareByCodeUnits_sat`, Proofs/BoundsAgree.lean) -/
+theorem compareByCodeUnits_wsat (a1 : Array Nat) (first1 last1 : Nat) (a2 : Array Nat) (first2 last2 : Nat)
     (h1 : first1 ≤ last1) (hl1 : last1 ≤ a1.size) (h2 : first2 ≤ last2) (hl2 : last2 ≤ a2.size) :
-    (compareByCodeUnits a1 first1 last1 a2 first2 last2).sat (fun _ => True) := by
+    (compareByCodeUnits a1 first1 last1 a2 first2 last2).wsat (fun _ => True) := by
   unfold compareByCodeUnits
-  refine iter_sat _ (fun s => first1 ≤ s.1 ∧ s.1 ≤ last1 ∧ first2 ≤ s.2 ∧ s.2 ≤ last2) (fun s => last1 - s.1)
+  refine iter_wsat _ (fun s => first1 ≤ s.1 ∧ s.1 ≤ last1 ∧ first2 ≤ s.2 ∧ s.2 ≤ last2) (fun s => last1 - s.1)
     (fun _ => True) ?_ _ _ ?_ ?_
   · intro ⟨it1, it2⟩ hI
     simp only at hI ⊢
@@ -270,17 +325,23 @@ theorem compareByCodeUnits_sat (a1 : Array Nat) (first1 last1 : Nat) (a2 : Array
       simp only [rd_ok hI.1 (by omega : it1 < last1) hl1, rd_ok hI.2.2.1 (by omega : it2 < last2) hl2, R.ok_bind]
       split
       · split
-        · rfin
-        · rfin
-      · refine R.sat_bind (readUtfChar_sat .u8 a1 first1 last1 it1 hI.1 (by omega) hl1) ?_
+        · wfin
+        · wfin
+      · refine R.wsat_bind (readUtfChar_sat .u8 a1 first1 last1 it1 hI.1 (by omega) hl1).wsat ?_
         intro ⟨cp1, it1'⟩ hv1
-        refine R.sat_bind (readUtfChar_sat .u8 a2 first2 last2 it2 hI.2.2.1 (by omega) hl2) ?_
+        refine R.wsat_bind (readUtfChar_sat .u8 a2 first2 last2 it2 hI.2.2.1 (by omega) hl2).wsat ?_
         intro ⟨cp2, it2'⟩ hv2
         simp only at hv1 hv2 ⊢
         split
-        · rfin
-        · (repeat' split) <;> rfin
-    · rfin
+        · wfin
+        · generalize (if cp1 ≤ 0xFFFF then cp1 else (cp1 >>> 10) + 0xD7C0) = cu1
+          generalize (if cp2 ≤ 0xFFFF then cp2 else (cp2 >>> 10) + 0xD7C0) = cu2
+          split
+          · refine R.wsat_bind (wsat_chk _) ?_
+            intro _ _
+            wfin
+          · wfin
+    · wfin
   · rarith
   · rarith
 
